@@ -66,4 +66,12 @@ PROPS = {
                 profiles=(["debug"], ["debug", "release"]), case_timeout=300,
                 rule="cases = (negotiated frame_max) x (1-3 publishing channels/threads) x (3-14 publishes each with random API entry point, flags, properties, boundary body lengths); distinct = (frame_max, channels, body-length vector); non-trivial = always (>= 3 publishes checked)",
                 assumptions=["trusted base: harness envelope parser and group walker, amq-protocol codec"]),
+    "C12": dict(level="exploration",
+                level_text="Held on the executions produced: ~70 public entry points of Connection, Channel, Queue, Exchange, Consumer, Delivery and Get are called with every boolean option drawn at random, strings of 0-255 bytes incl. multi-byte UTF-8, nested argument tables and numeric extremes; each call pushes the method it should emit (an expectation table written from the AMQP 0-9-1 reference and the rustdoc) onto a per-channel list, and the broker-side frame log must equal the lists exactly - so wrong fields, swapped same-typed fields, wrong channel, missing and extra methods are all decided. Acks/nacks/rejects of deliveries through another channel (Delivery, Get and Consumer variants) must panic and leave no frame.",
+                level_note="No hook. amq-protocol 1.4.0's parser drops bit flags whose AMQP name contains a hyphen (no-ack, no-local, auto-delete, if-unused, if-empty); the harness therefore reads those bits from the raw flag octet itself (wire.rs fix_hyphenated_flags). Passive exchange declare: the exchange type is not an argument and is not compared.",
+                technique="runtime monitoring: expectation-table oracle over the broker-side frame log (structural equality per call), catch_unwind monitor for cross-channel acknowledgements",
+                progress=False, abort=False, min_nontrivial=(60, 600),
+                profiles=(["debug"], ["debug", "release"]), case_timeout=300,
+                rule="cases = sessions of 25 API operations on two channels (every operation kind at least once per two consecutive cases, plus random repeats), each with random arguments; distinct = sequence of operation kinds + case index; all non-trivial (>= 25 calls compared)",
+                assumptions=["trusted base: expectation table in harness/src/props/c12.rs, amq-protocol codec plus the harness's own flag-bit reader"]),
 }
